@@ -46,6 +46,9 @@ const (
 	vtProcSpawn        = 36
 	vtProcTimeoutTo    = 37
 	vtInputCommit      = 38
+	vtStreamerSleep    = 39
+	vtStreamerWake     = 34
+	vtStreamerSignal   = 19
 )
 
 // Gate points.
@@ -92,6 +95,9 @@ const (
 	VtProcSpawn             = vtProcSpawn
 	VtProcTimeoutTo         = vtProcTimeoutTo
 	VtInputCommit           = vtInputCommit
+	VtStreamerSleep         = vtStreamerSleep
+	VtStreamerWake          = vtStreamerWake
+	VtStreamerSignal        = vtStreamerSignal
 	VgBatchAfterUnlock      = vgBatchAfterUnlock
 	VgBatchBeforeCommitWait = vgBatchBeforeCommitWait
 	VgStreamAfterPop        = vgStreamAfterPop
